@@ -541,6 +541,12 @@ class cleanup_functools_wrapper(object):
             for attr in self.attrs:
                 try:
                     value = getattr(self.func, attr)
+                    try:
+                        # the object's own entry as it is stored: on a class
+                        # it may be a descriptor, to be put back as such
+                        value = vars(self.func)[attr]
+                    except (TypeError, KeyError):
+                        pass
                     if _verif.enabled:
                         _verif.emit('Save', obj=id(self.func), attr=attr)
                     delattr(self.func, attr)
